@@ -210,6 +210,8 @@ class Inliner:
             self._propagate_types(locals_, blocks)
             callee = t["callee"]
             self._rework = []
+            pf = self.facts.fn(prov[b][0])
+            self._in_crate_iter_next = bool(pf is not None and pf.f.get("impl_trait") == "core::iter::Iterator" and pf.name == "next")
             new = self._expand_adaptor(b, t, callee, locals_, blocks)
             if new or self._rework:
                 for nb in new or []:
@@ -224,6 +226,11 @@ class Inliner:
             t.pop("_blk", None)
             t.pop("_blocks", None)
             if target_fn is None:
+                if t.get("untupled") and not t.get("_requeued"):
+                    # a foreign fn item called through Fn* was rewritten into a direct call: look at it again
+                    t["_requeued"] = True
+                    work.append((b, chain, self_subst))
+                    continue
                 self._note_foreign_closure(b, t, callee, locals_, blocks)
                 continue
             if target_fn.path in self.keep:
@@ -231,6 +238,10 @@ class Inliner:
             if target_fn.path in chain:
                 self.recursive.append((chain, target_fn.path))
                 continue
+            if target_fn.f.get("impl_trait") == "core::iter::Iterator" and target_fn.name == "next" and self._writes_own_fields(target_fn):
+                # an iterator type of the crate that is a state machine over its own fields: the interpreter does not
+                # track mutable fields of local aggregates, so what it yields in which order is not known
+                self.lazy_unexpanded.append((self._cur, b, "`%s` is a state machine over its own fields" % target_fn.path.replace("cactusref::", "")))
             loff = len(locals_)
             boff = len(blocks)
             new_locals = copy.deepcopy(target_fn.locals)
@@ -448,6 +459,9 @@ class Inliner:
         "core::result::Result::<T, E>::unwrap_or_else": ("Result", "Ok", "Err", "payload", "call_on_other"),
         "core::option::Option::<T>::map_or": ("Option", "Some", "None", "call", "default"),
         "core::option::Option::<T>::unwrap_or_else": ("Option", "Some", "None", "payload", "call0"),
+        "core::option::Option::<T>::map_or_else": ("Option", "Some", "None", "call", "call0"),
+        "core::result::Result::<T, E>::map_or_else": ("Result", "Ok", "Err", "call", "call_on_other"),
+        "core::option::Option::<T>::or_else": ("Option", "Some", "None", "self", "call0"),
     }
 
     def _expand_ne(self, b, t, callee, locals_, blocks):
@@ -506,7 +520,11 @@ class Inliner:
         body = hdr + 2
         done = hdr + 3
         itty = t.get("argtys", [unk])[0] if t.get("argtys") else unk
-        # the element type is the closure's parameter type
+        # the element type is the closure's / fn item's parameter type
+        if fty.get("k") == "fndef" and fty.get("fnin"):
+            ity = fty["fnin"][0]
+            locals_[ol]["ty"] = dict(locals_[ol]["ty"], s="core::option::Option<%s>" % ity.get("s", "?"))
+            locals_[pl_]["ty"] = ity
         if fty.get("k") == "closure":
             cf = self.facts.fn(fty["closure"])
             if cf is not None and cf.argc >= 2:
@@ -533,6 +551,107 @@ class Inliner:
         blocks[b]["stmts"].append({"k": "assign", "dst": {"l": fl, "p": []}, "rv": {"k": "use", "op": copy.deepcopy(args[1])}, **span})
         blocks[b]["term"] = {"k": "goto", "target": hdr, **span, "adaptor": "for_each"}
         return [hdr, sw, body, done]
+
+    def _expand_option_iter(self, b, t, callee, locals_, blocks):
+        """`opt.into_iter()` is modelled as the Option itself, and `next` on it hands the Option out and leaves None behind
+        (an Option's iterator yields its payload at most once)."""
+        st = callee.get("self_ty") or {}
+        args = t["args"]
+        span = {k: t.get(k) for k in ("file", "line", "exp", "macro")}
+        goto = {"k": "goto", "target": t["target"], **span} if t["target"] is not None else {"k": "unreachable", **span}
+        if callee["def"] == "core::iter::IntoIterator::into_iter":
+            if st.get("adt") != "core::option::Option" or st.get("peel", 0) != 0 or len(args) != 1 or args[0]["k"] not in ("move", "copy"):
+                return None
+            blocks[b]["stmts"].append({"k": "assign", "dst": copy.deepcopy(t["dst"]), "rv": {"k": "use", "op": copy.deepcopy(args[0])}, **span})
+            blocks[b]["term"] = dict(goto, adaptor="option-into_iter")
+            return []
+        if st.get("adt") != "core::option::IntoIter" or st.get("peel", 0) != 0 or len(args) != 1 or args[0]["k"] not in ("move", "copy") or args[0]["pl"]["p"]:
+            return None
+        # the receiver is `&mut it` taken in this block
+        rl = args[0]["pl"]["l"]
+        it = None
+        for s_ in blocks[b]["stmts"]:
+            if s_["k"] == "assign" and s_["dst"] == {"l": rl, "p": []}:
+                rv = s_["rv"]
+                it = rv["pl"]["l"] if rv["k"] == "ref" and not rv["pl"]["p"] else None
+        if it is None:
+            return None
+        none = {"k": "agg", "ak": "adt", "name": "core::option::Option", "variant": "None", "vidx": 0, "fields": [], "ops": []}
+        blocks[b]["stmts"].append({"k": "assign", "dst": copy.deepcopy(t["dst"]), "rv": {"k": "use", "op": {"k": "move", "pl": {"l": it, "p": []}}}, **span})
+        blocks[b]["stmts"].append({"k": "assign", "dst": {"l": it, "p": []}, "rv": none, **span})
+        blocks[b]["term"] = dict(goto, adaptor="option-next")
+        return []
+
+    def _expand_try_for_each(self, b, t, callee, locals_, blocks):
+        """`iter.try_for_each(f)` with a statically known closure and R = Option<()> / Result<(), E> / ControlFlow<B>:
+        loop { match Iterator::next(iter) { Some(x) => { r = f(x); if r is the short-circuit variant { break r } }, None => break R::from_output(()) } }"""
+        args = t["args"]
+        if len(args) != 2 or args[0]["k"] not in ("move", "copy") or args[0]["pl"]["p"]:
+            return None
+        fty = self._op_ty(args[1], locals_)
+        if fty is None or fty.get("k") != "closure" or self.facts.fn(fty["closure"]) is None:
+            return None
+        targs = callee.get("targs") or []
+        rty = targs[2] if len(targs) == 3 else {}
+        radt = rty.get("adt") if rty.get("peel", 0) == 0 else None
+        unit = {"k": "const", "ty": {"s": "()", "k": "tuple"}, "desc": "()"}
+        # (discriminant of the variant that stops the walk, value when the walk runs to its end)
+        if radt == "core::option::Option":
+            stop, done_rv = "0", {"k": "agg", "ak": "adt", "name": radt, "variant": "Some", "vidx": 1, "fields": ["0"], "ops": [unit]}
+        elif radt == "core::result::Result":
+            stop, done_rv = "1", {"k": "agg", "ak": "adt", "name": radt, "variant": "Ok", "vidx": 0, "fields": ["0"], "ops": [unit]}
+        elif radt == "core::ops::ControlFlow":
+            stop, done_rv = "1", {"k": "agg", "ak": "adt", "name": radt, "variant": "Continue", "vidx": 0, "fields": ["0"], "ops": [unit]}
+        else:
+            return None
+        span = {k: t.get(k) for k in ("file", "line", "exp", "macro")}
+        unk = {"s": "?", "k": "other", "hp": False, "nd": False, "dp": 0}
+        itref = args[0]["pl"]["l"]     # already `&mut iter`
+
+        def new_local(ty):
+            locals_.append({"ty": ty, "name": None})
+            return len(locals_) - 1
+        intty = {"s": "isize", "k": "int", "hp": False, "nd": False, "dp": 0}
+        ol = new_local({"s": "Option<?>", "k": "adt", "adt": "core::option::Option", "peel": 0, "hp": False, "nd": False, "dp": 0})
+        dl = new_local(intty)
+        pl_ = new_local(unk)
+        tl = new_local({"s": "(?,)", "k": "tuple", "hp": False, "nd": False, "dp": 0})
+        rl = new_local(rty)
+        rdl = new_local(intty)
+        fl = new_local(fty)
+        frl = new_local({"s": "&mut ?", "k": "refmut", "hp": False, "nd": False, "dp": 0})
+        cf = self.facts.fn(fty["closure"])
+        if cf.argc >= 2:
+            ity = cf.locals[2]["ty"]
+            locals_[ol]["ty"] = dict(locals_[ol]["ty"], s="core::option::Option<%s>" % ity.get("s", "?"))
+            locals_[pl_]["ty"] = ity
+        cleanup = blocks[b]["cleanup"]
+        hdr = len(blocks)
+        sw, body, test, brk, done = hdr + 1, hdr + 2, hdr + 3, hdr + 4, hdr + 5
+        itty = (t.get("argtys") or [unk])[0]
+        next_callee = {"def": "core::iter::Iterator::next", "full": "core::iter::Iterator::next", "crate": "core", "args": [], "targs": [], "local": False,
+                       "trait": "core::iter::Iterator", "self_ty": callee.get("self_ty") or unk}
+        goto_t = {"k": "goto", "target": t["target"], **span} if t["target"] is not None else {"k": "unreachable", **span}
+        blocks.append({"cleanup": cleanup, "stmts": [],
+                       "term": {"k": "call", "callee": next_callee, "fnop": {"k": "const", "ty": unk, "desc": "next"}, "args": [{"k": "copy", "pl": {"l": itref, "p": []}}],
+                                "argtys": [itty], "dst": {"l": ol, "p": []}, "target": sw, "unwind": t["unwind"], **span, "macro": "Desugaring(ForLoop)"}})
+        blocks.append({"cleanup": cleanup, "stmts": [{"k": "assign", "dst": {"l": dl, "p": []}, "rv": {"k": "discr", "pl": {"l": ol, "p": []}}, **span}],
+                       "term": {"k": "switch", "discr": {"k": "move", "pl": {"l": dl, "p": []}}, "targets": [["0", done], ["1", body]], "otherwise": done, **span}})
+        payload = {"k": "move", "pl": {"l": ol, "p": [{"dc": "Some", "vi": 1}, {"f": 0, "n": "0", "of": ""}]}}
+        blocks.append({"cleanup": cleanup, "stmts": [
+            {"k": "assign", "dst": {"l": pl_, "p": []}, "rv": {"k": "use", "op": payload}, **span},
+            {"k": "assign", "dst": {"l": tl, "p": []}, "rv": {"k": "agg", "ak": "tuple", "name": "", "variant": "", "vidx": 0, "fields": [], "ops": [{"k": "move", "pl": {"l": pl_, "p": []}}]}, **span},
+            {"k": "assign", "dst": {"l": frl, "p": []}, "rv": {"k": "ref", "mut": True, "pl": {"l": fl, "p": []}}, **span}],
+            "term": {"k": "call", "callee": {"def": "core::ops::FnMut::call_mut", "full": "core::ops::FnMut::call_mut", "crate": "core", "args": [], "targs": [], "local": False, "trait": "core::ops::FnMut"},
+                     "fnop": {"k": "const", "ty": unk, "desc": "call_mut"}, "args": [{"k": "move", "pl": {"l": frl, "p": []}}, {"k": "move", "pl": {"l": tl, "p": []}}],
+                     "argtys": [fty, {"s": "(?,)", "k": "tuple"}], "dst": {"l": rl, "p": []}, "target": test, "unwind": t["unwind"], **span}})
+        blocks.append({"cleanup": cleanup, "stmts": [{"k": "assign", "dst": {"l": rdl, "p": []}, "rv": {"k": "discr", "pl": {"l": rl, "p": []}}, **span}],
+                       "term": {"k": "switch", "discr": {"k": "move", "pl": {"l": rdl, "p": []}}, "targets": [[stop, brk]], "otherwise": hdr, **span}})
+        blocks.append({"cleanup": cleanup, "stmts": [{"k": "assign", "dst": copy.deepcopy(t["dst"]), "rv": {"k": "use", "op": {"k": "move", "pl": {"l": rl, "p": []}}}, **span}], "term": dict(goto_t)})
+        blocks.append({"cleanup": cleanup, "stmts": [{"k": "assign", "dst": copy.deepcopy(t["dst"]), "rv": done_rv, **span}], "term": dict(goto_t)})
+        blocks[b]["stmts"].append({"k": "assign", "dst": {"l": fl, "p": []}, "rv": {"k": "use", "op": copy.deepcopy(args[1])}, **span})
+        blocks[b]["term"] = {"k": "goto", "target": hdr, **span, "adaptor": "try_for_each"}
+        return [hdr, sw, body, test, brk, done]
 
     OPT_ADAPTORS = {
         "core::option::Option::<T>::map": "map",
@@ -570,8 +689,8 @@ class Inliner:
         fty = self._op_ty(args[1], locals_)
         if fty is None or fty.get("k") not in ("closure", "fndef"):
             return None
-        if fty.get("k") == "fndef" and self.facts.fn(fty["fndef"]) is None:
-            return None   # foreign fn item (e.g. NonZero::new): keep the library call
+        if fty.get("k") == "fndef" and self.facts.fn(fty["fndef"]) is None and not fty["fndef"].startswith("core::num::NonZero"):
+            return None   # foreign fn item: keep the library call (NonZero::new / get are expanded: the rules know them)
         span = {k: t.get(k) for k in ("file", "line", "exp", "macro")}
         unk = {"s": "?", "k": "other", "hp": False, "nd": False, "dp": 0}
         cleanup = blocks[b]["cleanup"]
@@ -720,8 +839,20 @@ class Inliner:
                 return r
         if callee is not None and callee["def"] == "core::iter::Iterator::for_each":
             return self._expand_for_each(b, t, callee, locals_, blocks)
+        if callee is not None and callee["def"] in ("core::iter::IntoIterator::into_iter", "core::iter::Iterator::next"):
+            r = self._expand_option_iter(b, t, callee, locals_, blocks)
+            if r is not None:
+                return r
+        if callee is not None and callee["def"] == "core::iter::Iterator::try_for_each":
+            r = self._expand_try_for_each(b, t, callee, locals_, blocks)
+            if r is not None:
+                return r
         if callee is not None and callee["def"] == "core::iter::Iterator::next":
             r = self._expand_lazy_next(b, t, callee, locals_, blocks)
+            if r is not None:
+                return r
+        if callee is not None and callee["def"] == "core::iter::Iterator::find" and self._in_crate_iter_next:
+            r = self._expand_find(b, t, callee, locals_, blocks)
             if r is not None:
                 return r
         if callee is not None and callee["def"] == "core::iter::Iterator::unzip":
@@ -767,7 +898,8 @@ class Inliner:
             p["p"] = p["p"] + [{"dc": variant, "vi": vi}, {"f": 0, "n": "0", "of": ""}]
             return {"k": "move", "pl": p}
 
-        def call_block(payload_op):
+        def call_block(payload_op, fidx=fidx):
+            fty = self._op_ty(args[fidx], locals_)
             stmts = []
             if payload_op is not None:
                 stmts.append({"k": "assign", "dst": {"l": pl_, "p": []}, "rv": {"k": "use", "op": payload_op}, **span})
@@ -795,6 +927,28 @@ class Inliner:
             some = call_block(proj("Some", 1))
             blocks.extend([none, some])
             sw = [["0", nb0]]
+            other = nb0 + 1
+        elif d in ("core::option::Option::<T>::map_or_else", "core::result::Result::<T, E>::map_or_else"):
+            # map_or_else(default, f): both arms are calls
+            for i in (1, 2):
+                ty_i = self._op_ty(args[i], locals_) if len(args) == 3 else None
+                if ty_i is None or ty_i.get("k") not in ("closure", "fndef"):
+                    return None
+            if d.startswith("core::option"):
+                none = call_block(None, 1)
+                some = call_block(proj("Some", 1), 2)
+                blocks.extend([none, some])
+            else:
+                ok = call_block(proj("Ok", 0), 2)
+                err = call_block(proj("Err", 1), 1)
+                blocks.extend([ok, err])
+            sw = [["0", nb0]]
+            other = nb0 + 1
+        elif d == "core::option::Option::<T>::or_else":
+            some = assign_block(copy.deepcopy(args[0]))
+            none = call_block(None)
+            blocks.extend([some, none])
+            sw = [["1", nb0]]
             other = nb0 + 1
         else:  # Option::unwrap_or_else
             some = assign_block(proj("Some", 1))
@@ -880,6 +1034,30 @@ class Inliner:
                 eff = True       # indirect call
         cache[path] = eff
         return eff
+
+    def _writes_own_fields(self, fn):
+        """Does this method assign to a field of `*self` (other than through calls)?"""
+        cache = self.__dict__.setdefault("_wof_cache", {})
+        if fn.path in cache:
+            return cache[fn.path]
+        r = False
+        # locals that alias `self` (copies / reborrows of parameter 1)
+        alias = {1}
+        for _ in range(3):
+            for blk in fn.blocks:
+                for st in blk["stmts"]:
+                    if st["k"] == "assign" and not st["dst"]["p"]:
+                        rv = st["rv"]
+                        if rv["k"] == "use" and rv["op"].get("k") in ("copy", "move") and not rv["op"]["pl"]["p"] and rv["op"]["pl"]["l"] in alias:
+                            alias.add(st["dst"]["l"])
+                        if rv["k"] in ("ref", "addr") and rv["pl"]["p"] == ["*"] and rv["pl"]["l"] in alias:
+                            alias.add(st["dst"]["l"])
+        for blk in fn.blocks:
+            for st in blk["stmts"]:
+                if st["k"] == "assign" and st["dst"]["l"] in alias and st["dst"]["p"] and st["dst"]["p"][0] == "*" and any(isinstance(e, dict) and "f" in e for e in st["dst"]["p"]):
+                    r = True
+        cache[fn.path] = r
+        return r
 
     def _local_def(self, l, blocks):
         """The single definition of local l: ('stmt', rvalue) | ('call', terminator) | None."""
@@ -987,7 +1165,30 @@ class Inliner:
 
     def _chain_effectful(self, stages):
         return any(cty is not None and self._effectful(cty) for (_k, _l, _i, _c, cty) in stages) or \
-            any(k in ("filter", "map", "filter_map", "inspect") and cty is None for (k, _l, _i, _c, cty) in stages)
+            any(k in ("filter", "map", "filter_map", "inspect") and cty is None for (k, _l, _i, _c, cty) in stages) or \
+            any(k in ("map", "filter_map") and cty is not None and self._branchy(cty) for (k, _l, _i, _c, cty) in stages)
+
+    def _branchy(self, fty):
+        """A mapping closure that decides between several results (match / `?` / `cond.then(..)`): what it hands on is
+        not one expression over the element, so the stage is unrolled into the loop it abbreviates, like hand-written
+        `match` + `continue`."""
+        path = fty.get("closure") or fty.get("fndef")
+        cache = self.__dict__.setdefault("_branchy_cache", {})
+        if path in cache:
+            return cache[path]
+        f = self.facts.fn(path) if path else None
+        if f is None:
+            cache[path] = False
+            return False
+        cache[path] = False
+        saved = self._cur
+        sub = Inliner(self.facts, self.keep)
+        sub._branchy_cache = cache
+        g = sub.inline(f)
+        self._cur = saved
+        r = any(blk["term"]["k"] == "switch" and not blk["cleanup"] and not blk["term"].get("macro") for blk in g.blocks)
+        cache[path] = r
+        return r
 
     OPT_TY = {"s": "core::option::Option<?>", "k": "adt", "adt": "core::option::Option", "peel": 0, "hp": False, "nd": False, "dp": 0, "dpf": 0, "dtor": False}
     UNK_TY = {"s": "?", "k": "other", "hp": False, "nd": False, "dp": 0}
@@ -1139,7 +1340,7 @@ class Inliner:
     # (with its effects checked there), or run lazily (then checked where the pipeline is consumed)
     CLOSURE_TAKERS_OK = ("filter", "map", "filter_map", "inspect", "for_each", "any", "all", "find", "find_map", "position", "rposition",
                          "take_while", "skip_while", "min_by_key", "max_by_key", "min_by", "max_by", "and_modify", "extract_if",
-                         "call_once", "call_mut", "call", "update", "unwrap_or_else", "map_or", "and_then", "is_some_and", "then")
+                         "call_once", "call_mut", "call", "update", "unwrap_or_else", "map_or", "map_or_else", "or_else", "and_then", "is_some_and", "then")
 
     def _note_foreign_closure(self, b, t, callee, locals_, blocks):
         """A closure of this crate with side effects handed to library code we neither expand nor interpret."""
@@ -1154,6 +1355,57 @@ class Inliner:
             if ty is not None and ty.get("k") in ("closure", "fndef") and self.facts.fn(ty.get("closure") or ty.get("fndef") or "") is not None and self._effectful(ty):
                 self.lazy_unexpanded.append((self._cur, b, "`%s` is given a closure with side effects" % d))
                 return
+
+    def _expand_find(self, b, t, callee, locals_, blocks):
+        """`it.find(pred)` used as "the next element that satisfies pred" inside an iterator type of this crate:
+        loop { let x = it.next()?; if pred(&x) { return Some(x) } }"""
+        a = t["args"]
+        if len(a) != 2 or a[0].get("k") not in ("copy", "move") or a[0]["pl"]["p"]:
+            return None
+        fty = self._op_ty(a[1], locals_)
+        if fty is None or fty.get("k") not in ("closure", "fndef"):
+            fty = self._captured_callee(a[1], locals_, blocks)
+        if fty is None:
+            return None
+        span = {k: t.get(k) for k in ("file", "line", "exp", "macro")}
+        cleanup = blocks[b]["cleanup"]
+        unwind = t["unwind"]
+        goto_t = {"k": "goto", "target": t["target"], **span} if t["target"] is not None else {"k": "unreachable", **span}
+        nl = lambda ty: (locals_.append({"ty": ty, "name": None}), len(locals_) - 1)[1]
+        r = a[0]["pl"]["l"]
+        x = nl(dict(self.OPT_TY))
+        dl = nl({"s": "isize", "k": "int", "hp": False, "nd": False, "dp": 0})
+        rr = nl({"s": "&mut ?", "k": "refmut", "hp": False, "nd": False, "dp": 0})
+        pr = nl(dict(self.UNK_TY))
+        tl = nl({"s": "(?,)", "k": "tuple", "hp": False, "nd": False, "dp": 0})
+        fl = nl(fty)
+        frl = nl({"s": "&mut ?", "k": "refmut", "hp": False, "nd": False, "dp": 0})
+        y = nl({"s": "bool", "k": "bool", "hp": False, "nd": False, "dp": 0})
+        n0 = len(blocks)
+        hdr, sw, test, chk, some, none = n0, n0 + 1, n0 + 2, n0 + 3, n0 + 4, n0 + 5
+        pointee = dict(locals_[r]["ty"])
+        ncallee = {"def": "core::iter::Iterator::next", "full": "core::iter::Iterator::next", "crate": "core", "args": [], "targs": [], "local": False,
+                   "trait": "core::iter::Iterator", "self_ty": pointee}
+        blocks.append({"cleanup": cleanup, "stmts": [{"k": "assign", "dst": {"l": rr, "p": []}, "rv": {"k": "ref", "mut": True, "pl": {"l": r, "p": ["*"]}}, **span}],
+                       "term": {"k": "call", "callee": ncallee, "fnop": {"k": "const", "ty": self.UNK_TY, "desc": "next"}, "args": [{"k": "move", "pl": {"l": rr, "p": []}}],
+                                "argtys": [{"s": "&mut ?", "k": "refmut"}], "dst": {"l": x, "p": []}, "target": sw, "unwind": unwind, **span}})
+        blocks.append({"cleanup": cleanup, "stmts": [{"k": "assign", "dst": {"l": dl, "p": []}, "rv": {"k": "discr", "pl": {"l": x, "p": []}}, **span}],
+                       "term": {"k": "switch", "discr": {"k": "move", "pl": {"l": dl, "p": []}}, "targets": [["0", none], ["1", test]], "otherwise": none, **span}})
+        payload_pl = {"l": x, "p": [{"dc": "Some", "vi": 1}, {"f": 0, "n": "0", "of": ""}]}
+        blocks.append({"cleanup": cleanup, "stmts": [
+            {"k": "assign", "dst": {"l": pr, "p": []}, "rv": {"k": "ref", "mut": False, "pl": copy.deepcopy(payload_pl)}, **span},
+            {"k": "assign", "dst": {"l": tl, "p": []}, "rv": {"k": "agg", "ak": "tuple", "name": "", "variant": "", "vidx": 0, "fields": [], "ops": [{"k": "move", "pl": {"l": pr, "p": []}}]}, **span},
+            {"k": "assign", "dst": {"l": fl, "p": []}, "rv": {"k": "use", "op": copy.deepcopy(a[1])}, **span},
+            {"k": "assign", "dst": {"l": frl, "p": []}, "rv": {"k": "ref", "mut": True, "pl": {"l": fl, "p": []}}, **span}],
+            "term": {"k": "call", "callee": {"def": "core::ops::FnMut::call_mut", "full": "core::ops::FnMut::call_mut", "crate": "core", "args": [], "targs": [], "local": False, "trait": "core::ops::FnMut"},
+                     "fnop": {"k": "const", "ty": self.UNK_TY, "desc": "call_mut"}, "args": [{"k": "move", "pl": {"l": frl, "p": []}}, {"k": "move", "pl": {"l": tl, "p": []}}],
+                     "argtys": [fty, {"s": "(?,)", "k": "tuple"}], "dst": {"l": y, "p": []}, "target": chk, "unwind": unwind, **span}})
+        blocks.append({"cleanup": cleanup, "stmts": [], "term": {"k": "switch", "discr": {"k": "move", "pl": {"l": y, "p": []}}, "targets": [["0", hdr]], "otherwise": some, **span}})
+        blocks.append({"cleanup": cleanup, "stmts": [{"k": "assign", "dst": copy.deepcopy(t["dst"]), "rv": {"k": "use", "op": {"k": "move", "pl": {"l": x, "p": []}}}, **span}], "term": dict(goto_t)})
+        blocks.append({"cleanup": cleanup, "stmts": [{"k": "assign", "dst": copy.deepcopy(t["dst"]), "rv": {"k": "agg", "ak": "adt", "name": "core::option::Option", "variant": "None", "vidx": 0, "fields": [], "ops": []}, **span}], "term": dict(goto_t)})
+        blocks[b]["term"] = {"k": "goto", "target": hdr, **span, "adaptor": "find", "lazy": {"hdr": hdr, "target": t["target"], "none": none, "some": some}}
+        blocks[hdr]["term"]["lazy_inner"] = True
+        return [hdr, sw, test, chk, some, none]
 
     def _expand_unzip(self, b, t, callee, locals_, blocks):
         """`let (xs, ys): (Vec<_>, Vec<_>) = pipeline.unzip()` where the pipeline runs crate code with effects:
